@@ -1,7 +1,7 @@
 #!/usr/bin/env bash
 # MANIFEST.setup_cmd: build everything from files on disk, offline.
 set -eu
-cd "$(dirname "$0")"
+cd "$(dirname "$0")"; export VERIF_ROOT="$PWD"
 export GOFLAGS=-mod=mod GOPROXY=off GOSUMDB=off GOTOOLCHAIN=local
 cp /repo/go.sum harness/go.sum
 mkdir -p evidence replays build
